@@ -20,7 +20,7 @@ import time
 HERE = os.path.dirname(os.path.abspath(__file__))
 ROOT = os.path.dirname(HERE)
 sys.path.insert(0, HERE)
-from plan import PLAN, VARIANTS, CONFIGS, VARIANT_ENV  # noqa: E402
+from plan import PLAN, VARIANTS, CONFIGS, VARIANT_ENV, BROKEN  # noqa: E402
 
 HARNESS = os.path.join(ROOT, "harness")
 BIN = os.path.join(ROOT, "bin")
@@ -335,7 +335,7 @@ def check(prop, tier):
     seed = int(os.environ.get("VERIF_SEED", "1") or "1")
     t0 = time.time()
     if prop not in PLAN:
-        log("no plan for", prop)
+        log("no plan for", prop, "(plan file does not load: %s)" % BROKEN[prop] if prop in BROKEN else "")
         return 2
     plan = PLAN[prop]
     rundir = os.path.join(RUN, "%s-%s" % (prop, tier))
